@@ -2,8 +2,8 @@ import RbV.Model.MyersTraceback
 import RbV.Model.MyersLong
 /-!
 Mirror model of the traceback of the block-based Myers matcher (`long.rs: LongStatesHandler`, `LongTracebackHandler`;
-the loop is the same `traceback.rs: _traceback_at`) (C10, sampled: no theorem yet except the single-block reduction in
-`Lemmas/TracebackLongOne.lean`).  Core Lean only.
+the loop is the same `traceback.rs: _traceback_at`) (C10 phase 3; proved: `Thm/C10.lean: traceback_long_model_sound`,
+lemmas in `Lemmas/TracebackLong{Geom,Inv,Moves,Step,Loop,Store,Sound}.lean`).  Core Lean only.
 
 A column of the states vector has `nb = ⌈m / w⌉` slots.  `add_state` copies the blocks the search has computed for the
 column (`States::step` of the C09 model: band-limited) and, if there are fewer than `nb`, puts a sentinel block
@@ -106,6 +106,17 @@ def tracebackRdL {w : Nat} (nb m : Nat) (rd : Nat → Array (St w)) (fuel : Nat)
   let r := LHandler.loop rd fuel (h0.moveUpLeft true)
   (r.1, h0.block.dist, r.2)
 
+/-- the handler when the loop is entered: `init_traceback` then `move_up_left(true)` -/
+def LHandler.start {w : Nat} (nb m : Nat) (rd : Nat → Array (St w)) : LHandler w :=
+  (LHandler.new nb m rd).moveUpLeft true
+
+/-- the handler after `n` passes through the loop body -/
+def LHandler.after {w : Nat} (nb m : Nat) (rd : Nat → Array (St w)) : Nat → LHandler w
+  | 0 => LHandler.start nb m rd
+  | n + 1 =>
+    let h := LHandler.after nb m rd n
+    if h.finished then h else (h.iter rd).2.2
+
 /-! ### the states vector: `N` columns of `nb` slots -/
 
 /-- `LongStatesHandler::add_state(source, pos, states)` -/
@@ -145,5 +156,39 @@ def scanStoreL (w : Nat) (eqv : Nat → Nat → Bool) (p : List Nat) (k N : Nat)
   let nb := blks.length
   let s0 := RbV.Model.MyersLong.initStates w blks p.length k
   scanGoL w eqv blks p.length k N want (addColumn nb (setMaxColumn nb old.toArray (0 % N)) (1 % N) s0) s0 0 t
+
+/-! ### the function the soundness theorem is about
+
+`scanStoreL` walks over the text once and keeps the states vector in an `Array` (as `FullMatches` / `LazyMatches` do).
+`tracebackStoreL … t c` = what it reports at the end `c` (`Lemmas/TracebackLongStore.lean: scanStoreL_eq`): the search
+state and the states vector after the first `c` symbols (`stateAfter`), then `_traceback_at(self.pos)`. -/
+
+/-- one text symbol: `States::step`, then `add_state` into the slot of sequence number `c + 2`; state = (states vector,
+active blocks, number of symbols consumed) -/
+def stepStore (w : Nat) (eqv : Nat → Nat → Bool) (blks : List (List Nat)) (k N : Nat)
+    (st : Array (St w) × List (St w) × Nat) (a : Nat) : Array (St w) × List (St w) × Nat :=
+  let sts' := RbV.Model.MyersLong.stepStates eqv blks k a st.2.1
+  (addColumn blks.length st.1 ((st.2.2 + 2) % N) sts', sts', st.2.2 + 1)
+
+/-- `Traceback::new` (guard column, initial column) followed by the search over `u` -/
+def stateAfter (w : Nat) (eqv : Nat → Nat → Bool) (p : List Nat) (k N : Nat) (old : List (St w)) (u : List Nat) :
+    Array (St w) × List (St w) × Nat :=
+  let blks := RbV.Model.MyersLong.blocksOf w p
+  let nb := blks.length
+  let s0 := RbV.Model.MyersLong.initStates w blks p.length k
+  u.foldl (stepStore w eqv blks k N) (addColumn nb (setMaxColumn nb old.toArray (0 % N)) (1 % N) s0, s0, 0)
+
+/-- the whole stored-state traceback of the block-based version: search the first `c` symbols of `t` with threshold `k`
+storing the columns in a vector of `N` columns (`N * nb` states, previous contents `old`), then `_traceback_at` at the
+column of the (exclusive) end `stop ≤ c` (`stop = c`: `traceback()` of the eager API; `stop < c`: `traceback_at(stop − 1)`
+of the lazy API); (start, dist, ops forward) -/
+def tracebackStoreLAt (w : Nat) (eqv : Nat → Nat → Bool) (p : List Nat) (k N : Nat) (old : List (St w)) (t : List Nat)
+    (c stop : Nat) : Nat × Nat × List Op :=
+  tracebackNowL (RbV.Model.MyersLong.blocksOf w p).length p.length N (stateAfter w eqv p k N old (t.take c)).1 stop
+
+/-- … at the current column (what `scanStoreL` reports) -/
+def tracebackStoreL (w : Nat) (eqv : Nat → Nat → Bool) (p : List Nat) (k N : Nat) (old : List (St w)) (t : List Nat)
+    (c : Nat) : Nat × Nat × List Op :=
+  tracebackStoreLAt w eqv p k N old t c c
 
 end RbV.Model.MyersTracebackLong
